@@ -30,6 +30,9 @@ MUTANTS = [
     ("unfix-F10-retake", ["C09"], ["unfix_F10_retake.diff"], []),
     ("unfix-F13-exact-decode", ["C15"], ["unfix_F13_exact_decode.diff"], []),
     ("unfix-F14-welcome-active", ["C16"], ["unfix_F14_welcome_active.diff"], []),
+    ("unfix-F7-decode-after-merge", ["C06"], ["unfix_F7_decode_after_merge.diff"], []),
+    ("unfix-F12-log-snapshot-name", ["C14"], ["unfix_F12_log_snapshot_name.diff"], []),
+    ("unfix-F14c-decline", ["C16"], ["unfix_F14c_decline.diff"], []),
     ("c01-comparator-le", ["C01", "C07"], [], [(CORE + "epoch_snapshots.rs", "if candidate_ts < snapshot.applied_commit_ts {", "if candidate_ts <= snapshot.applied_commit_ts {")]),
     ("c01-id-tiebreak-le", ["C01", "C07"], [], [(CORE + "epoch_snapshots.rs", "if candidate_id.to_hex() < snapshot.applied_commit_id.to_hex() {", "if candidate_id.to_hex() <= snapshot.applied_commit_id.to_hex() {")]),
     ("c03-no-eviction-return", ["C03"], [], [(CORE + "messages/commit.rs", """        if mls_group.own_leaf().is_none() {
@@ -132,6 +135,9 @@ EQ = os.path.join(HERE, "equiv")
 
 # behaviour-preserving refactors: every listed check must stay SILENT (exit 0) on them — a check that fires here is a false alarm
 EQUIV = [
+    ("eq-application-helpers", ["C02", "C03", "C04", "C06", "C07", "C14", "C17", "C18"], [os.path.join(EQ, "application_helpers.diff")], []),
+    ("eq-sql-formatting", ["C02", "C07", "C08", "C09", "C10", "C12", "C18", "C19"], [os.path.join(EQ, "sql_formatting.diff")], []),
+    ("eq-commit-helpers", ["C01", "C03", "C05", "C06", "C07", "C08", "C14"], [os.path.join(EQ, "commit_helpers.diff")], []),
     ("eq-c12-raii-transaction", ["C12", "C09", "C19"], [os.path.join(EQ, "c12_raii_transaction.diff")], []),
     ("eq-c20-release-in-place-then-truncate", ["C11", "C20"], [], [(CORE + "epoch_snapshots.rs", """                let removed = queue.split_off(index);
                 for (i, snap) in removed.into_iter().enumerate() {
